@@ -15,4 +15,8 @@ return of `tryBackup` — the early `return err` between them is part of the mod
 call unissued) -/
 theorem source_backup_precedes_base_mutation : backupBeforeMutation flowFacts methodParams = true := by decide +kernel
 
+/-- while a backup is taken, every helper that writes (`copyDir`, `copyFile`, `copySymlink`) is pointed at
+`fsys.backup`; nothing in `tryBackup`/`backupDirs`/`backupRequired` restores or chowns on the base -/
+theorem source_backup_helpers_write_backup_only : backupHelpersWriteBackupOnly flowFacts = true := by decide +kernel
+
 end Props.C08
